@@ -11,8 +11,12 @@ import argparse, fcntl, hashlib, json, math, os, re, struct, subprocess, sys, ti
 HERE = os.path.dirname(os.path.abspath(__file__))
 VERIF = os.path.dirname(HERE)
 REPO = os.environ.get("VERIF_REPO", "/repo")
-WORK = os.path.join(VERIF, ".work")
-LEAN = os.path.join(VERIF, "lean")
+# the three overrides below exist so that a seeded change can be evaluated in isolation (scratch copy of /repo,
+# scratch build dir, scratch copy of the lean tree) while other work goes on in /verif; the registered
+# commands never set them
+WORK = os.environ.get("VERIF_WORKDIR") or os.path.join(VERIF, ".work")
+LEAN = os.environ.get("VERIF_LEAN") or os.path.join(VERIF, "lean")
+OUTDIR = os.environ.get("VERIF_OUTDIR") or VERIF
 sys.path.insert(0, HERE)
 import cxx2lean  # noqa: E402
 from props import PROPS  # noqa: E402
@@ -300,7 +304,7 @@ def match_known(key, js, known):
 
 # ------------------------------------------------------------------------------------------ MAIN
 def write_replay(prop, payload):
-    d = os.path.join(VERIF, "replay")
+    d = os.path.join(OUTDIR, "replay")
     os.makedirs(d, exist_ok=True)
     h = hashlib.sha1(json.dumps(payload, sort_keys=True).encode()).hexdigest()[:10]
     p = os.path.join(d, "%s-%s.json" % (prop, h))
@@ -514,8 +518,8 @@ def main():
 
 
 def write_evidence(prop, ev):
-    os.makedirs(os.path.join(VERIF, "evidence"), exist_ok=True)
-    with open(os.path.join(VERIF, "evidence", prop + ".json"), "w") as f:
+    os.makedirs(os.path.join(OUTDIR, "evidence"), exist_ok=True)
+    with open(os.path.join(OUTDIR, "evidence", prop + ".json"), "w") as f:
         json.dump(ev, f, indent=1, sort_keys=False, default=str)
 
 
